@@ -6,7 +6,8 @@ from props import gen_props
 def run(ctx):
     from props import gen_unbounded
     # the composition on the shape corpus, then the unbounded function contracts (DESIGN.md 8.6)
-    gen_unbounded.run_with_composition(ctx, 'C07', [('reroute', gen_unbounded.run_reroute)])
+    gen_unbounded.run_with_composition(ctx, 'C07', [('reroute', gen_unbounded.run_reroute),
+                                                      ('dzn-elements', gen_unbounded.run_dzn_elements, (('Component', False), ('System', False)))])
 
 
 def make_replay(ctx, o):
